@@ -104,8 +104,14 @@ func pickRunnable(except *gor) *gor {
 	if len(cands) == 0 {
 		return nil
 	}
-	if X.SchedChoice && len(cands) > 1 {
-		return cands[X.Choice(len(cands))]
+	// delay-bounded exploration: deviating from the default (lowest id) costs
+	// one unit of the path's budget, like a preemption.
+	if X.SchedChoice && len(cands) > 1 && except.s.preempt < X.MaxPreempt {
+		k := X.Choice(len(cands))
+		if k != 0 {
+			except.s.preempt++
+		}
+		return cands[k]
 	}
 	return cands[0]
 }
